@@ -870,7 +870,8 @@ Proof.
   pose proof (wf_env_nth _ _ _ Hwf Hj) as Hwc. unfold wf_class in Hwc.
   apply andb_true_iff in Hwc. destruct Hwc as [Hfs _].
   apply forallb_forall. intros f Hf. rewrite forallb_forall in Hfs. specialize (Hfs f Hf).
-  unfold wf_field in Hfs. apply andb_true_iff in Hfs. destruct Hfs as [_ Hx]. exact Hx.
+  unfold wf_field in Hfs. apply andb_true_iff in Hfs. destruct Hfs as [_ Hx].
+  apply andb_true_iff in Hx. destruct Hx as [Hx _]. exact Hx.
 Qed.
 
 (* G2 *)
